@@ -33,6 +33,7 @@
 #include <unistd.h>
 #include <signal.h>
 #include <setjmp.h>
+#include <sys/time.h>
 
 typedef struct { parsec_list_item_t super; int id; int prio; } elt_t;
 #define OFF offsetof(elt_t, prio)
@@ -277,14 +278,18 @@ static void on_signal(int sig) { siglongjmp(crash_jmp, sig); }
 int main(int argc, char **argv) {
     FILE *f = hc_open(argc, argv); char *l;
     struct sigaction sa; memset(&sa, 0, sizeof sa); sa.sa_handler = on_signal; sigemptyset(&sa.sa_mask);
-    sigaction(SIGSEGV, &sa, NULL); sigaction(SIGBUS, &sa, NULL); sigaction(SIGALRM, &sa, NULL);
+    sigaction(SIGSEGV, &sa, NULL); sigaction(SIGBUS, &sa, NULL); sigaction(SIGVTALRM, &sa, NULL);
+    int ntimeouts = 0;
     while ((l = hc_next(f))) {
         /* all state is static and rebuilt per case (no allocation in the list code), so a case that
-         * crashes or loops on a corrupted structure is abandoned and the next one starts clean */
+         * crashes or loops on a corrupted structure is abandoned and the next one starts clean.  A case
+         * takes microseconds: 200 ms of CPU means a loop; after 25 of them the rest is not run. */
+        if (ntimeouts >= 25) { printf("<not run: too many cases looped>\n"); continue; }
         npool = 0; R = NULL; olen = 0; memset(byid, 0, sizeof byid);
+        struct itimerval on = { {0, 0}, {0, 200000} }, off = { {0, 0}, {0, 0} };
         int sig = sigsetjmp(crash_jmp, 1);
-        if (sig == 0) { alarm(5); run_case(l); alarm(0); fwrite(out, 1, olen, stdout); }
-        else { alarm(0); printf("<crash signal %d>\n", sig); }
+        if (sig == 0) { setitimer(ITIMER_VIRTUAL, &on, NULL); run_case(l); setitimer(ITIMER_VIRTUAL, &off, NULL); fwrite(out, 1, olen, stdout); }
+        else { setitimer(ITIMER_VIRTUAL, &off, NULL); if (sig == SIGVTALRM) ntimeouts++; printf("<crash signal %d>\n", sig); }
     }
     return 0;
 }
